@@ -1,7 +1,7 @@
 #!/bin/bash
 # all checks on the clean tree at several seeds (false-alarm hunt); leaves evidence from the last seed=1 run
-cd /verif
-for s in 2 3 1; do
+cd "$(dirname "$0")/.."
+for s in ${SWEEP_SEEDS:-2 3 1}; do
   for c in $(python3 -c "import json; print(' '.join(x['property_id'] for x in json.load(open('MANIFEST.json'))['checks']))"); do
     out=$(VERIF_SEED=$s ./check $c --tier quick 2>&1 | grep "^check\|^VIOLATION\|^KNOWN" | tr '\n' ' ')
     echo "seed=$s $out"
